@@ -46,7 +46,7 @@ func (c cfg) String() string {
 	return fmt.Sprintf("keep-alive maxRetries=%d period=%v depth=%d ping-send-may-fail=%v%s", c.MaxRetries, P, c.Depth, c.SendMayFail, sp)
 }
 
-var deltas = []time.Duration{P / 2, P - eps, P + eps, 2*P + eps}
+var deltas = []time.Duration{P / 2, P - eps, P + eps, 2*P + eps, P - P/32}
 
 func scenario(c cfg) *mcx.Scenario {
 	return &mcx.Scenario{
@@ -133,8 +133,14 @@ func scenario(c cfg) *mcx.Scenario {
 						last = vrt.Now()
 						fails = 0 // "any ... other received message resets the count"
 					case k == 1:
-						hist = append(hist, "wait(P/2)")
-						vrt.Advance(P / 2)
+						// a short or a long pause without a tick (two messages less than P/8 apart, or half a period)
+						if vrt.Choose(2, nil) == 0 {
+							hist = append(hist, "wait(P/2)")
+							vrt.Advance(P / 2)
+						} else {
+							hist = append(hist, "wait(P/16)")
+							vrt.Advance(P / 16)
+						}
 					case k < 2+len(deltas):
 						d := deltas[k-2]
 						hist = append(hist, fmt.Sprintf("tick(+%v)", d))
